@@ -21,6 +21,7 @@ import (
 	"io"
 	"net"
 	"strconv"
+	"strings"
 	"sync"
 	"time"
 
@@ -98,7 +99,8 @@ func (server *Server) SetCommandHandler(handler UserCommandHandler) {
 
 // RegisterExexutor sets a command executor.
 func (server *Server) RegisterExexutor(cmd string, executor Executor) {
-	server.commandExecutors[cmd] = executor
+	// Command names are matched case-insensitively: the lookup uses the upper-case name.
+	server.commandExecutors[strings.ToUpper(cmd)] = executor
 }
 
 // Start starts the server.
